@@ -453,6 +453,97 @@ def acceptance_oracle(seed, tier, full=False):
 
 
 # --------------------------------------------------------------------------
+# (i-b) vanishing likelihood: L(x') = 0 with p(x') > 0
+# --------------------------------------------------------------------------
+def zero_likelihood_findings(seed, tier, full=False):
+    """Targets whose likelihood vanishes on part of the prior's support (logl = -inf, logp finite) --
+    hard constraints put into the likelihood.  The property's formula gives, for a symmetric proposal,
+    acceptance probability 0 into that region for beta > 0 and min(1, p(x')/p(x)) for beta = 0 (L^0 = 1:
+    the hottest chain of a ladder with beta = 0 samples the prior, which is what DynamicalAnnealer sets up
+    by default).  Real chains are stepped with their real generator; every step is judged from the
+    recorded proposal, the pure model and the drawn record."""
+    import math
+    import numpy
+    from epsie.chain import Chain
+    from epsie.proposals import Normal
+    from epsie.samplers import ParallelTemperedSampler
+    from epsie.chain.ptchain import DynamicalAnnealer
+    findings, stats = [], {'steps': 0, 'into_zero_likelihood': 0, 'from_zero_likelihood': 0, 'pt_iterations': 0}
+    cut = 0.25
+
+    def model(x):
+        return (-0.5 * x * x if x >= cut else -numpy.inf), -0.5 * (x / 4.) ** 2
+
+    nsteps = 60 if tier == 'quick' and not full else 600
+    for beta in (0.0, 0.25, 1.0):
+        ch = Chain(['x'], model, [Normal(['x'], cov=[4.])], bit_generator=(seed % 1000) * 7 + 11, beta=beta)
+        ch.start_position = {'x': 1.}
+        for it in range(nsteps):
+            cur = float(ch.current_position['x'])
+            cur_l, cur_p = model(cur)
+            try:
+                ch.step()
+            except ValueError as e:
+                findings.append(('zero-likelihood:step-raised:beta=%g' % beta,
+                                 'Chain.step raised %r on a proposal of vanishing likelihood and finite prior '
+                                 '(beta=%g, current x=%r, proposed x=%r): the step has to accept with '
+                                 'probability min(1, p(x\')L(x\')^beta/(p(x)L(x)^beta))' % (
+                                     str(e).split('\n')[0], beta, cur, float(ch.proposed_position['x'])),
+                                 {'beta': beta, 'iteration': it, 'current': cur,
+                                  'proposed': float(ch.proposed_position['x']), 'seed': seed,
+                                  'model': 'logl = -x^2/2 for x >= 0.25 else -inf; logp = -(x/4)^2/2'}))
+                break
+            stats['steps'] += 1
+            prop = float(ch.proposed_position['x'])
+            l, pr = model(prop)
+            ar = float(ch.acceptance['acceptance_ratio'][-1])
+            if beta == 0.0:
+                want = min(1.0, math.exp(pr - cur_p))
+            elif l == -numpy.inf:
+                want = 0.0 if cur_l > -numpy.inf else None
+            elif cur_l == -numpy.inf:
+                want = 1.0
+            else:
+                want = min(1.0, math.exp(pr + beta * l - cur_p - beta * cur_l))
+            if l == -numpy.inf:
+                stats['into_zero_likelihood'] += 1
+            if cur_l == -numpy.inf:
+                stats['from_zero_likelihood'] += 1
+            if want is not None and not (abs(ar - want) <= 1e-9 * max(1.0, want)):
+                findings.append(('zero-likelihood:wrong-acceptance:beta=%g' % beta,
+                                 'recorded acceptance probability %r for the move %r -> %r at beta=%g; the '
+                                 'property gives %r' % (ar, cur, prop, beta, want),
+                                 {'beta': beta, 'iteration': it, 'current': cur, 'proposed': prop, 'seed': seed}))
+                break
+    # the default dynamical annealer puts the hottest level at beta = 0
+    def model2(x, y):
+        return (-0.5 * (x * x + y * y) if x >= cut else -numpy.inf), -0.5 * ((x / 4.) ** 2 + (y / 4.) ** 2)
+    for dyn in (True, False):
+        betas = numpy.array([1.0, 0.5, 0.0]) if not dyn else numpy.array([1.0, 0.5, 0.1])
+        try:
+            kw = dict(adaptive_annealer=DynamicalAnnealer()) if dyn else {}
+            smp = ParallelTemperedSampler(['x', 'y'], model2, 2, betas=betas, seed=seed % 997 + 3,
+                                          proposals=[Normal(['x', 'y'], cov=[4., 4.])], **kw)
+            smp.start_position = {'x': numpy.full((3, 2), 1.0), 'y': numpy.full((3, 2), 0.5)}
+            n = 40 if tier == 'quick' and not full else 400
+            smp.run(n)
+            stats['pt_iterations'] += n
+            lg = smp.stats['logl']
+            if lg.shape[0] != 3 or not numpy.all(numpy.isfinite(lg[:2])):   # ntemps x nchains x niterations
+                findings.append(('zero-likelihood:cold-level-holds-zero-likelihood-state',
+                                 'a level with beta > 0 recorded a state of vanishing likelihood', {'dynamic': dyn, 'seed': seed}))
+        except ValueError as e:
+            findings.append(('zero-likelihood:tempered-run-raised:%s' % ('annealer' if dyn else 'fixed'),
+                             'a tempered sampler whose hottest level has beta = 0 (%s) raised %r on a target whose '
+                             'likelihood vanishes on part of the prior support' % (
+                                 'the default DynamicalAnnealer sets this up' if dyn else 'betas [1, 0.5, 0]',
+                                 str(e).split('\n')[0]),
+                             {'dynamic': dyn, 'seed': seed,
+                              'model': 'logl = -(x^2+y^2)/2 for x >= 0.25 else -inf; logp = -((x/4)^2+(y/4)^2)/2'}))
+    return findings, stats
+
+
+# --------------------------------------------------------------------------
 # (ii) exact kernel on lattices
 # --------------------------------------------------------------------------
 
